@@ -269,6 +269,12 @@ def do_replay(mod, prop, path):
     with open(path) as fh:
         rec = json.load(fh)
     case = rec["case"] if isinstance(rec, dict) and "case" in rec else rec
+    # scratch files of the replay go into a directory of its own that is removed afterwards
+    scratch = tempfile.mkdtemp(prefix="verif-replay-")
+    os.environ["TMPDIR"] = scratch
+    tempfile.tempdir = scratch
+    import atexit
+    atexit.register(shutil.rmtree, scratch, True)
     try:
         mod.replay(case)
     except Violation as v:
